@@ -473,7 +473,7 @@ func runJob(g Glue, j *Job, res *JobResult) {
 	}()
 	gsim.SetKnob("iNITIAL_STACK_SIZE", j.Knob)
 	if j.Budget <= 0 {
-		j.Budget = 5_000_000
+		j.Budget = 50_000_000
 	}
 	switch j.Kind {
 	case "c03":
